@@ -9,6 +9,7 @@ import (
 	"fmt"
 	"reflect"
 	"sort"
+	"strconv"
 	"strings"
 
 	configapi "github.com/onosproject/onos-api/go/onos/config/v2"
@@ -200,10 +201,12 @@ func handleLeafValue(nodemap map[string]interface{}, value *configapi.TypedValue
 			(nodemap)[pathelems[0]] = (*configapi.TypedUint)(value).Uint()
 		}
 	case configapi.ValueType_DECIMAL:
+		digits, precision := (*configapi.TypedDecimal)(value).Decimal64()
 		if jsonRFC7951 {
-			(nodemap)[pathelems[0]] = (*configapi.TypedDecimal)(value).String()
+			(nodemap)[pathelems[0]] = utils.StrDecimal64(digits, uint32(precision))
 		} else {
-			(nodemap)[pathelems[0]] = (*configapi.TypedDecimal)(value).Float()
+			floatVal, _ := strconv.ParseFloat(utils.StrDecimal64(digits, uint32(precision)), 64)
+			(nodemap)[pathelems[0]] = floatVal
 		}
 	case configapi.ValueType_FLOAT:
 		if jsonRFC7951 {
@@ -242,7 +245,17 @@ func handleLeafValue(nodemap map[string]interface{}, value *configapi.TypedValue
 	case configapi.ValueType_LEAFLIST_BOOL:
 		(nodemap)[pathelems[0]] = (*configapi.TypedLeafListBool)(value).List()
 	case configapi.ValueType_LEAFLIST_DECIMAL:
-		(nodemap)[pathelems[0]] = (*configapi.TypedLeafListDecimal)(value).ListFloat()
+		if jsonRFC7951 {
+			// decimal64 values are strings in RFC 7951 JSON, in a leaf-list as well
+			digitsList, precision := (*configapi.TypedLeafListDecimal)(value).List()
+			asStrList := make([]string, 0, len(digitsList))
+			for _, digits := range digitsList {
+				asStrList = append(asStrList, utils.StrDecimal64(digits, uint32(precision)))
+			}
+			(nodemap)[pathelems[0]] = asStrList
+		} else {
+			(nodemap)[pathelems[0]] = (*configapi.TypedLeafListDecimal)(value).ListFloat()
+		}
 	case configapi.ValueType_LEAFLIST_FLOAT:
 		(nodemap)[pathelems[0]] = (*configapi.TypedLeafListFloat)(value).List()
 	case configapi.ValueType_LEAFLIST_BYTES:
